@@ -79,6 +79,8 @@ impl World {
             stats_called_unusable: false,
             faulted: false,
             faulted_in_rename: false,
+            step_injected: false,
+            pending_reclaim: None,
             stop: false,
             unmount_failed: false,
             geo,
@@ -1236,6 +1238,7 @@ pub fn exec_step(w: &mut World, s: &mut Session, step: &Step) -> Result<(), Viol
         w.step_calls.push(0);
     }
     w.step_calls.push(w.disk.borrow().op_calls);
+    w.step_injected = !injected.is_empty();
     if !injected.is_empty() {
         w.stats.hard_faults += injected.len() as u64;
         w.faulted = true;
